@@ -59,6 +59,9 @@ Step(e) ==
     [] e.op = "vlraw" ->
          IF ~e.usable THEN UNCHANGED <<cfg, written, bad, skip, stats>>
          ELSE
+         IF Len(e.els) # Len(written)
+         THEN RejectItems(e, <<[diag |-> "element-count-differs", exp |-> Len(written), got |-> Len(e.els)]>>) /\ UNCHANGED stats
+         ELSE
          LET n == Len(written)
              viaSpec == \A i \in 1..n : e.els[i].spec.ok
              viaAlt == \A i \in 1..n : e.els[i].alt.ok
